@@ -19,6 +19,7 @@ paste lemma (a statement about the pest grammar) is exercised by the
 correspondence run on generated directory trees, not proved.
 -/
 import EtkVerif.Asm.IngestLemmas
+import EtkVerif.Asm.HexInclude
 namespace EtkVerif.C12
 open Asm
 
@@ -44,5 +45,20 @@ theorem C12_scope_standalone (rnd : Nat → Nat) (fuel : Nat) (ms : List (String
 theorem C12_raw_length (bytes : List Nat) (rest : List Item) (ws : List Nat) (pos : Nat) (ls : List (String × Option Nat)) :
     positionsPass (Item.raw bytes :: rest) ws pos ls = positionsPass rest ws (pos + bytes.length) ls := by
   simp [positionsPass]
+
+/-- `%include_hex("f")` contributes exactly the bytes written in f: when f holds the hexadecimal text of `bs` (two
+digits per byte), surrounded by any white space (`str::trim`), the directive yields the raw op `bs` — no byte dropped,
+added or re-ordered, leading zero bytes included -/
+theorem C12_include_hex_exact (fs : FS) (cwd : PathC) (fuel : Nat) (prog : Program) (r : Root) (path : String)
+    (tr : List Event) (loc : List String) (pre post bs : List Nat)
+    (hroot : prog.root = some r)
+    (hcheck : r.check fs (cwd.join ((baseDir prog).join (PathC.ofString path))) = .ok loc)
+    (hread : fs.readText loc = some (pre ++ Listing.hexOf bs ++ post))
+    (hb : ∀ b ∈ bs, b < 256) (hpre : ∀ c ∈ pre, isWsCp c = true) (hpost : ∀ c ∈ post, isWsCp c = true) :
+    nodesLoop fs cwd (fuel + 2) prog [.includeHex path] tr =
+      .ok ([.raw bs], tr ++ [.check (cwd.join ((baseDir prog).join (PathC.ofString path))) true] ++ [.read loc]) := by
+  have hx := hexDecode_trim_hexOf pre post bs hb hpre hpost
+  simp only [nodesLoop, hroot, hcheck, hread, hx]
+  simp
 
 end EtkVerif.C12
